@@ -16,8 +16,8 @@ def run(ctx):
     # ASK-redirected members at several positions (the retry bookkeeping objects are pooled)
     gens = ['Gen_cluster_batch.cfg', 'Gen_cluster_tx.cfg', 'Gen_cluster_denied.cfg', 'Gen_cluster_inittx.cfg', 'Gen_cluster_hop.cfg', 'Gen_cluster_pool.cfg']
     if th:
-        cc.sim(ctx, gens, 0, 250, focus='multi,multi,multicache', tracefiles=8, mc=['MC_cluster_thorough.cfg'], negs=negs)
+        cc.sim(ctx, gens, 0, 250, focus='multi,multi,multicache', tracefiles=8, mc=['MC_cluster_thorough.cfg', 'MC_cluster_txloss.cfg'], negs=negs)
     else:
         cc.sim(ctx, gens, {'Gen_cluster_batch.cfg': 30, 'Gen_cluster_tx.cfg': 30, 'Gen_cluster_denied.cfg': 12, 'Gen_cluster_inittx.cfg': 30,
-                           'Gen_cluster_hop.cfg': 30, 'Gen_cluster_pool.cfg': 40}, 24, focus='multi,multi,multicache', tracefiles=8, negs=negs)
+                           'Gen_cluster_hop.cfg': 30, 'Gen_cluster_pool.cfg': 40}, 24, focus='multi,multi,multicache', tracefiles=8, mc=['MC_cluster_txloss.cfg'], negs=negs)
     ctx.exhaustive = th      # the quick tier replays a seeded sample of the TLC-generated scenarios, the thorough tier all of them
